@@ -28,6 +28,15 @@ CLAIMED["C02"] = dict(
     note="Trusted: Coq kernel; models Model/Iset.v tied to the four kernels and the public union/intersect/set_diff/TsGroup support by differential execution.",
     technique="Coq theorems (nested structural / fuel induction with invariants) + extracted-model/implementation correspondence",
     design="5 C02")
+CLAIMED["C05"] = dict(
+    text="Proof: the model of jitcount/_jitbin_array (per-interval bin walk with the kernel's nb_bins fuel and centre>end stop) equals the grid the property states for every "
+         "sorted series, canonical IntervalSet and positive bin size: bins [s+jb, s+(j+1)b) reported iff centre <= end, value = number (resp. sum/count) of that interval's "
+         "samples in the bin; bins are disjoint, centres lie in their interval, a sample is missed only beyond the last reported bin; un-binned counts = per-interval closed "
+         "counts summing to len(restrict). Correspondence on the dyadic lattice 2^-9 s (all float operations exact: bin-edge hits and centre==end deterministic).",
+    note="Trusted: Coq kernel; model Model/Count.v tied to jitcount, jitbin_array and the public count/bin_average/TsGroup.count (3 units, 3 dtypes) by differential execution; "
+         "np.round(.,9) = identity on ticks; on decimal lattices a centre exactly equal to the interval end is float_ambiguous (xpos not re-rounded).",
+    technique="Coq theorems (keyed bin-walk induction, ceil/div arithmetic) + extracted-model/implementation correspondence",
+    design="5 C05")
 REASON_TODO = "check not built yet in this round (planned: DESIGN.md section 5)"
 m = {
     "version": 1,
